@@ -411,6 +411,9 @@ func c18Run(input string) string {
 	if kv["via"] == "reg" {
 		return c18Reg(kv)
 	}
+	if kv["sess"] == "1" {
+		return c18Sess(kv)
+	}
 	w := &world{sh: parseShape(kv["sh"]), ids: map[*Conf]int{}, ff: parseSet(kv["ff"]), cf: parseSet(kv["cf"]), rf: parseSet(kv["rf"]),
 		plugT: ifaceT, bad: kv["bad"] == "1"}
 	for i, t := range strings.Split(kv["d"], "/") {
@@ -849,6 +852,9 @@ func c18Class(input, obs string) string {
 	if kv["via"] == "reg" {
 		return "reg-" + obs
 	}
+	if kv["sess"] == "1" {
+		return sessClass(input, obs)
+	}
 	if kv["hist"] == "1" {
 		c := "hist-" + kv["sh"][:2]
 		if kv["via"] == "hook" {
@@ -1035,6 +1041,11 @@ func c18Gen(r *rand.Rand, tier string) []string {
 		}
 	}
 	out = append(out, regCases(r, tier)...)
+	if tier == "thorough" {
+		out = append(out, sessGen(r, 60000)...)
+	} else {
+		out = append(out, sessGen(r, 1500)...)
+	}
 	if tier == "thorough" {
 		out = append(out, exhaustiveSmall(2, false)...)
 		out = append(out, exhaustiveSmall(3, true)...)
